@@ -127,15 +127,6 @@ def run(tier, seed, replay, proof_phase, write_replay, log):
             mask=m, features=feats, cargo_errors=cargo_bad[m], model_unsatisfied=[list(b) for b in model_bad.get(m, [])],
             replay_cmd=f"cd /repo && cargo check --lib --offline --no-default-features --features '{','.join(feats)}'"))
         violations.append((path, ""))
-    if not cargo_bad and (model_bad or proof["failures"]):
-        # the theorem no longer checks but every subset compiles: the translator's abstraction (or the
-        # table) no longer matches the code — not shown to hold
-        m = sorted(model_bad)[0] if model_bad else None
-        path = write_replay(prop, seed, 1, dict(property=prop, kind="proof obligation no longer checks",
-            theorem="Jp.C20.all_subsets_build", mask=m, model_unsatisfied=[list(b) for b in model_bad.get(m, [])] if m is not None else [],
-            proof_failures=proof["failures"], no_failing_input_found=True,
-            note="cargo check accepts all 256 subsets; the generated table has a live reference the model cannot satisfy"))
-        violations.append((path, " no-failing-input-found"))
     # second half
     log("C20: core operations with all default features off vs default build vs model")
     nlines, probs, undecided = core_half(tier, seed, log)
@@ -150,6 +141,17 @@ def run(tier, seed, replay, proof_phase, write_replay, log):
         path = write_replay(prop, seed, 10 + n, dict(property=prop, kind="core behaviour differs between configurations / model",
             line=pr[0], field=pr[1], no_default_features=pr[2], default=pr[3], model=pr[4]))
         violations.append((path, ""))
+    std_behavioural = [x for x in T.get("stdgated", []) if x[2]]
+    if not violations and (model_bad or proof["failures"]):
+        # the theorem no longer checks but every subset compiles: the translator's abstraction (or the
+        # table) no longer matches the code — not shown to hold
+        m = sorted(model_bad)[0] if model_bad else None
+        path = write_replay(prop, seed, 1, dict(property=prop, kind="proof obligation no longer checks",
+            theorem="Jp.C20.all_subsets_build", mask=m, model_unsatisfied=[list(b) for b in model_bad.get(m, [])] if m is not None else [],
+            proof_failures=proof["failures"], no_failing_input_found=True,
+            std_gated_behavioural_regions=[list(x) for x in std_behavioural],
+            note="cargo check accepts all 256 subsets; the generated table has a live reference the model cannot satisfy, or a region selected by the `std` feature that is not an Error impl (theorem std_gates_are_behaviour_neutral); the core-operations comparison below searches for a behavioural difference"))
+        violations.append((path, " no-failing-input-found"))
     wall = time.time() - t0
     if not replay:
         ev = dict(property_id=prop, tier=tier, seed=seed, level="proof",
@@ -165,6 +167,7 @@ def run(tier, seed, replay, proof_phase, write_replay, log):
                 exhaustive=True, programs=len(masks), disagreements_checked=len(disagreements),
                 traces_validated_against_impl=len(masks),
                 table_rows=len(T["table"]), feature_edges=T["fedges"], crate_edges=T["dedges"],
+                std_gated_regions=len(T.get("stdgated", [])), std_gated_behavioural=[list(x) for x in std_behavioural],
                 cargo_failing_subsets=len(cargo_bad), model_failing_subsets=len(model_bad),
                 model_vs_cargo_disagreements=disagreements[:20],
                 core_lines=nlines, core_disagreements=len(probs), proof_failures=proof["failures"],
